@@ -87,6 +87,7 @@ func PlanFor(prop, tier string) (*Plan, error) {
 			S3(tier, true).withBudget(Budget{"bid": 1, "mod": 1, "block": 2, "update": 0, "create": 1}, "-lite").withProbes(false),
 			S1p(tier),
 			S3x(tier).withBudget(Budget{"bid": 2, "block": 1, "allow": 0, "update": 0}, "-lite").withProbes(false),
+			S2b(tier, 0, false).withBudget(Budget{"bid": 2, "mod": 2, "block": 1, "update": 0}, "-lite").withProbes(false),
 		}
 		if !quick {
 			mid := Budget{"bid": 2, "allow": 2, "update": 1, "mod": 1, "block": 3, "tick": 1, "cancel": 1}
@@ -125,6 +126,7 @@ func PlanFor(prop, tier string) (*Plan, error) {
 			S2e(tier).withBudget(Budget{"bid": 2, "mod": 0, "block": 4, "update": 0}, "-lite"),
 			S1a(tier, true).withBudget(lite, "-lite"),
 			S3e(tier).withBudget(Budget{"bid": 3, "block": 3}, "-lite"),
+			S2c(tier, "0.5", 0).withBudget(Budget{"bid": 2, "mod": 0, "update": 0, "block": 2, "tick": 2}, "-lite"), // extension period 0 in the params
 		}
 		if !quick {
 			p.Scenarios = []*Scenario{S3(tier, false), S2e(tier), S1a(tier, true), S2a(tier, false), S3x(tier), S3e(tier)}
